@@ -1,5 +1,6 @@
 //! Engine B: world generator + in-process drivers for all generators.
 mod backends;
+mod c13;
 mod c15;
 mod c16;
 mod c17;
@@ -32,6 +33,7 @@ fn main() {
     }
     let mut check = vcommon::Check::new(&args);
     match args.id.as_str() {
+        "C13" => c13::run(&mut check),
         "C15" => c15::run(&mut check),
         "C16" => c16::run(&mut check),
         "C17" => c17::run(&mut check),
